@@ -46,31 +46,44 @@ def EratGeom.uninit (start stop : Nat) : EratGeom :=
 
 def roundUp8 (x : Nat) : Nat := ceilDiv x 8 * 8
 
+/-- Erat::initAlgorithms steps 1–4: the sieve size before the EratBig power-of-two adjustment -/
+def EratGeom.baseSize (cfg : EratCfg) (stop maxSieveKiB : Nat) : Nat :=
+  let maxSieveSize := maxSieveKiB * 1024
+  let sqrtStop := Nat.sqrt stop
+  let l1 := inBetween (16 * 1024) cfg.l1CacheSize (8192 * 1024)
+  let l1 := roundUp8 l1
+  let maxSieveSize := roundUp8 maxSieveSize
+  let minSieveSize := min l1 maxSieveSize
+  let sieveSize := cfg.mulSieveSize sqrtStop
+  let sieveSize := if sieveSize > minSieveSize then sieveSize - sieveSize % minSieveSize else sieveSize
+  let sieveSize := inBetween minSieveSize sieveSize maxSieveSize
+  let sieveSize := inBetween (16 * 1024) sieveSize (8192 * 1024)
+  roundUp8 sieveSize
+
+/-- Erat::initAlgorithms steps 1–7: (sieve size in bytes, maxEratSmall, maxEratMedium) -/
+def EratGeom.sizes (cfg : EratCfg) (stop maxSieveKiB : Nat) : Nat × Nat × Nat :=
+  let sqrtStop := Nat.sqrt stop
+  let l1 := roundUp8 (inBetween (16 * 1024) cfg.l1CacheSize (8192 * 1024))
+  let sieveSize := EratGeom.baseSize cfg stop maxSieveKiB
+  let minSieveSize := min l1 sieveSize
+  let maxEratSmall := cfg.mulSmall minSieveSize
+  let maxEratMedium := cfg.mulMedium sieveSize
+  let big := decide (sqrtStop > maxEratMedium)
+  let sieveSize := if big then floorPow2 sieveSize else sieveSize
+  let minSieveSize := if big then min l1 sieveSize else minSieveSize
+  let maxEratSmall := if big then cfg.mulSmall minSieveSize else maxEratSmall
+  let maxEratMedium := if big then cfg.mulMedium sieveSize else maxEratMedium
+  (sieveSize, min maxEratSmall sqrtStop, min maxEratMedium sqrtStop)
+
 /-- Erat::init + Erat::initAlgorithms; `maxSieveKiB` is the sieve size in KiB (16..8192) -/
 def EratGeom.init (cfg : EratCfg) (start stop maxSieveKiB : Nat) : EratGeom :=
   if start > stop ∨ start ≥ umax then EratGeom.uninit start stop
   else
-    let maxSieveSize := maxSieveKiB * 1024
+    let sz := EratGeom.sizes cfg stop maxSieveKiB
+    let sieveSize := sz.1
+    let maxEratSmall := sz.2.1
+    let maxEratMedium := sz.2.2
     let sqrtStop := Nat.sqrt stop
-    let l1 := inBetween (16 * 1024) cfg.l1CacheSize (8192 * 1024)
-    let l1 := roundUp8 l1
-    let maxSieveSize := roundUp8 maxSieveSize
-    let minSieveSize := min l1 maxSieveSize
-    let sieveSize := cfg.mulSieveSize sqrtStop
-    let sieveSize := if sieveSize > minSieveSize then sieveSize - sieveSize % minSieveSize else sieveSize
-    let sieveSize := inBetween minSieveSize sieveSize maxSieveSize
-    let sieveSize := inBetween (16 * 1024) sieveSize (8192 * 1024)
-    let sieveSize := roundUp8 sieveSize
-    let minSieveSize := min l1 sieveSize
-    let maxEratSmall := cfg.mulSmall minSieveSize
-    let maxEratMedium := cfg.mulMedium sieveSize
-    let big := decide (sqrtStop > maxEratMedium)
-    let sieveSize := if big then floorPow2 sieveSize else sieveSize
-    let minSieveSize := if big then min l1 sieveSize else minSieveSize
-    let maxEratSmall := if big then cfg.mulSmall minSieveSize else maxEratSmall
-    let maxEratMedium := if big then cfg.mulMedium sieveSize else maxEratMedium
-    let maxEratSmall := min maxEratSmall sqrtStop
-    let maxEratMedium := min maxEratMedium sqrtStop
     let rem := byteRemainder start
     let dist := sieveSize * 30 + 6
     let segmentLow := start - rem
